@@ -344,14 +344,6 @@ func (tf *TermFactory) bvBin(op string, a, b BV, signed bool) BV {
 		if b.t == nil && b.v == 0 {
 			return a
 		}
-	case "div":
-		if b.t == nil && b.v == 1 {
-			return a
-		}
-	case "rem":
-		if b.t == nil && b.v == 1 {
-			return cbv(w, 0)
-		}
 	case "mul":
 		if (a.t == nil && a.v == 1) || (b.t == nil && b.v == 0) {
 			return b
